@@ -137,25 +137,36 @@ def check_band_values(rule, idx, f: FunctionInfo, average: bool = True) -> None:
     rule.check(jdom is not None and len(jdom) == 1, "column j of the result runs over the requested bands, in their order", f, st,
                f"`{norm1(st)}`: the column index {jv} does not enumerate the requested bands")
     bands = jdom[0] if jdom else None
-    # (3) KEY = GROUPS[ik][j]
-    km = pmatch(key, f"GRP[{ikv}][{jv}]", {"GRP"})
-    if not (km and km[0][0] is key):
-        kres = S.resolve(key, at)
-        km = pmatch(kres, f"GRP[{ikv}][{jv}]", {"GRP"})
-        if not (km and km[0][0] is kres):
-            rule.violation(f, st, f"`{norm1(st)}`: band column {jv} takes the value stored under `{norm1(key)}`, which is not the group assigned to the "
-                           f"{jv}-th requested band of k-point {ikv}")
-            return
-    grp_name = km[0][1]["GRP"]
+    # (3) KEY = GROUPS[ik][j]  (list of per-k lists)  or  KEY = L[j]  (a list built for this k-point)
+    site = None
+    grp_name = None
+    for cand in (key, S.resolve(key, at)):
+        km = pmatch(cand, f"GRP[{ikv}][{jv}]", {"GRP"})
+        if km and km[0][0] is cand:
+            grp_name = f"{km[0][1]['GRP']}[{ikv}]"
+            site = _find_group_builder(idx, f, S, km[0][1]["GRP"], ikv, at)
+            break
+    if grp_name is None and isinstance(key, ast.Subscript) and norm(key.slice) == jv and isinstance(key.value, ast.Name):
+        grp_name = key.value.id
+        site = _per_k_list_form(idx, f, S, key.value, at)
+    if grp_name is None:
+        rule.violation(f, st, f"`{norm1(st)}`: band column {jv} takes the value stored under `{norm1(key)}`, which is not the group assigned to the "
+                       f"{jv}-th requested band of k-point {ikv}")
+        return
     # (4) how GROUPS[ik] is built
-    site = _find_group_builder(idx, f, S, grp_name, ikv, at)
     if site is None:
-        rule.expect(False, "band → group search located", f, st, f"{f.qualname}: could not follow how `{grp_name}[{ikv}]` (group of every requested band) is built")
+        rule.expect(False, "band → group search located", f, st, f"{f.qualname}: could not follow how `{grp_name}` (group of every requested band) is built")
         return
     S2, g2, rep_node, elem, loops, conds = site
     # loops: outer→inner [(target, iter_resolved_text, node)]
     n_expr = norm(elem)
-    band_loop = [k for k, (t, it, ln) in enumerate(loops) if it == bands]
+    bands_r = None
+    if bands is not None:
+        try:
+            bands_r = S.rnorm(ast.parse(bands, mode="eval").body, at)
+        except SyntaxError:
+            bands_r = bands
+    band_loop = [k for k, (t, it, ln) in enumerate(loops) if it in (bands, bands_r)]
     grp_loop = [k for k, (t, it, ln) in enumerate(loops) if t == n_expr]
     ok_order = bool(band_loop and grp_loop) and band_loop[0] < grp_loop[0]
     rule.check(ok_order, "the group list is built band by band (requested-band loop outside, group search inside): entry j belongs to requested band j", g2,
@@ -165,8 +176,13 @@ def check_band_values(rule, idx, f: FunctionInfo, average: bool = True) -> None:
                f"band's values")
     if band_loop and grp_loop:
         ibv = loops[band_loop[0]][0]
-        okc = any(any(pmatch(c, p_, {"N", "IB"}, {"N": n_expr, "IB": ibv}) and pmatch(c, p_, {"N", "IB"}, {"N": n_expr, "IB": ibv})[0][0] is c
-                      for p_ in MEMBER_FORMS) for c in conds)
+        if isinstance(elem, ast.Tuple) and len(elem.elts) == 2:
+            P_, Q_ = norm(elem.elts[0]), norm(elem.elts[1])
+        else:
+            P_, Q_ = f"{n_expr}[0]", f"{n_expr}[1]"
+        forms = [m_.replace("N[0]", "P").replace("N[1]", "Q") for m_ in MEMBER_FORMS]
+        okc = any(any(pmatch(c, p_, {"P", "Q", "IB"}, {"P": P_, "Q": Q_, "IB": ibv}) and pmatch(c, p_, {"P", "Q", "IB"}, {"P": P_, "Q": Q_, "IB": ibv})[0][0] is c
+                      for p_ in forms) for c in conds)
         rule.check(okc, "band → group by n0 ≤ ib < n1", g2, rep_node,
                    f"the group appended for band {ibv} is not selected by {n_expr}[0] <= {ibv} < {n_expr}[1]", stmt="band in group")
         gl_node = loops[grp_loop[0]][2]
@@ -192,7 +208,11 @@ def check_band_values(rule, idx, f: FunctionInfo, average: bool = True) -> None:
                 info = classify_trace(S, tcall[0])
                 G = same_group(str(info.get("P")), str(info.get("Q"))) if info["kind"] == "group" else None
                 kt = norm(kres)
-                okk = G is not None and (kt == G or (isinstance(kres, ast.Tuple) and [norm(x) for x in kres.elts] == [str(info.get("P")), str(info.get("Q"))]))
+                pq = [str(info.get("P")), str(info.get("Q"))]
+                unpacked = info["kind"] == "group" and any(isinstance(l_.target, ast.Tuple) and [norm(x) for x in l_.target.elts] == pq
+                                                           for l_ in enclosing_all(pm, vs, ast.For))
+                okk = (G is not None and (kt == G or (isinstance(kres, ast.Tuple) and [norm(x) for x in kres.elts] == pq))) or \
+                    (unpacked and isinstance(kres, ast.Tuple) and [norm(x) for x in kres.elts] == pq)
                 okavg = True
                 if average:
                     okavg = bool(pmatch(vs.value, "T_ / (Q_ - P_)", {"T_", "Q_", "P_"})) and isinstance(vs.value, ast.BinOp) and isinstance(vs.value.op, ast.Div) and \
@@ -207,6 +227,81 @@ def check_band_values(rule, idx, f: FunctionInfo, average: bool = True) -> None:
         rule.check(viter is not None and (viter == grp_iter or viter.replace(".keys()", "") == grp_iter.replace(".keys()", "")),
                    "values are computed for the groups the bands are looked up in", f, vl or vs,
                    f"group values are computed for `{viter}` but bands are assigned groups from `{grp_iter}`")
+
+
+def _search_form(idx, f, S: Sem, e: ast.AST, at: int):
+    """Inner band → group search written as an expression: `_helper(b, GROUPS)` (first group containing the band returned from a
+    loop) or `next(n for n in GROUPS if …[, default])`.  → (element, [(target, iter text, node)], [conditions]) or None."""
+    if isinstance(e, ast.Call) and call_name(e) == "next" and e.args and isinstance(e.args[0], ast.GeneratorExp):
+        ge = e.args[0]
+        loops = [(norm(g_.target), S.rnorm(g_.iter, at), g_) for g_ in ge.generators]
+        return ge.elt, loops, [c for g_ in ge.generators for c in g_.ifs]
+    if isinstance(e, ast.Call):
+        nm = e.func.id if isinstance(e.func, ast.Name) else e.func.attr if isinstance(e.func, ast.Attribute) and isinstance(e.func.value, ast.Name) \
+            and e.func.value.id in ("self", "cls") else None
+        g = next((h for h in reachable_helpers(idx, f) if h.name == nm), None)
+        if g is None or any(isinstance(a, ast.Starred) for a in e.args):
+            return None
+        params = [p for p in g.params if p not in ("self", "cls")]
+        sub: Dict[str, ast.AST] = {}
+        for p, a in zip(params, e.args):
+            sub[p] = a
+        for k in e.keywords:
+            if k.arg in params:
+                sub[k.arg] = k.value
+        rets = [r for r in ast.walk(g.node) if isinstance(r, ast.Return) and r.value is not None and not (isinstance(r.value, ast.Constant) and r.value.value is None)]
+        if len(rets) != 1:
+            return None
+        S2 = Sem(idx, g)
+        S2.inline_helpers = False
+        fl = [l for l in reversed(enclosing_all(S2.pm, rets[0], ast.For))]
+        if not fl:
+            return None
+        loops = []
+        for l in fl:
+            it = S._subst(l.iter, sub)
+            loops.append((norm(l.target), S.rnorm(it, at) if all(isinstance(n, ast.AST) for n in [it]) else norm(it), l))
+        conds = [S._subst(c.test, sub) for c in enclosing_all(S2.pm, rets[0], ast.If) if any(x is rets[0] for b_ in c.body for x in ast.walk(b_))]
+        return S._subst(rets[0].value, sub), loops, conds
+    return None
+
+
+def _per_k_list_form(idx, f, S: Sem, name: ast.Name, at: int):
+    """Normal form of a list built for one k-point whose j-th entry is the group of the j-th requested band: comprehension over the
+    bands (inner search as a nested generator, a helper call or next(…)), or `L = []` + append in a loop nest; a trailing
+    `[g for g in L if g is not None]` is looked through (it only matters when a band belongs to no group)."""
+    cur, cur_at = name, at
+    for _ in range(4):
+        ds = S.du.reaching(cur.id, cur_at)
+        if len(ds) != 1 or ds[0].value is None:
+            return None
+        v = ds[0].value
+        if isinstance(v, ast.ListComp) and len(v.generators) == 1 and isinstance(v.elt, ast.Name) and isinstance(v.generators[0].target, ast.Name) \
+                and v.elt.id == v.generators[0].target.id and isinstance(v.generators[0].iter, ast.Name) and len(v.generators[0].ifs) == 1 \
+                and norm(v.generators[0].ifs[0]) == f"{v.elt.id} is not None":
+            # reaching definitions *before* this statement
+            cur, cur_at = v.generators[0].iter, ds[0].node
+            continue
+        if (isinstance(v, ast.List) and not v.elts) or norm(v) == "list()":
+            for c in method_calls(f.node, "append"):
+                if norm(c.func.value) == cur.id and len(c.args) == 1:
+                    loops = [(norm(l.target), S.rnorm(l.iter, S.cfg.node(l)), l) for l in reversed(enclosing_all(S.pm, c, ast.For))]
+                    # only the loops that start after the list was created belong to its construction
+                    loops = [x for x in loops if x[2].lineno > ds[0].stmt.lineno]
+                    conds = [i_.test for i_ in enclosing_all(S.pm, c, ast.If) if any(x is c for b_ in i_.body for x in ast.walk(b_))]
+                    return S, f, enclosing(S.pm, c, ast.stmt), c.args[0], loops, conds
+            return None
+        if isinstance(v, ast.ListComp):
+            at_ = ds[0].node
+            loops = [(norm(ge.target), S.rnorm(ge.iter, at_), ge) for ge in v.generators]
+            conds = [c for ge in v.generators for c in ge.ifs]
+            inner = _search_form(idx, f, S, v.elt, at_)
+            if inner is not None:
+                elem, l2, c2 = inner
+                return S, f, v, elem, loops + l2, conds + c2
+            return S, f, v, v.elt, loops, conds
+        return None
+    return None
 
 
 def _find_group_builder(idx, f, S: Sem, grp_name: str, ikv: str, at: int):
